@@ -108,6 +108,11 @@ def ex_history(R):
                 cmd = b'%dr f3\n' % R.randint(0, max(n, 1))      # (f3 has no newline at its end)
             elif R.random() < 0.06:
                 cmd = R.choice([b'e!\n', b'e!\n', b'e\n'])      # re-reading the file is a change like any other: one step, history kept
+            elif R.random() < 0.08:
+                # one command line (or one global) that edits, writes lines somewhere else, and edits again: one command, one undo step
+                one = [b'1s/^/x/', b'$s/$/y/', b'1d', b'%s/a/b/g', b'1y|$pu', b'$s/./&&/']
+                wr = R.choice([b'1,1w! other', b'w! other', b'.w !cat', b'1w! other2', b'$w !tr a-z A-Z', b'wa', b'x other3' if False else b'1,$w! other'])
+                cmd = R.choice([R.choice(one) + b'|' + wr + b'|' + R.choice(one), b'g/./s/$/!/|' + wr, b'g/a/s/a/b/|.w! other', b'v/zzz/.w !cat\n1s/^/k/'.split(b'\n')[0] + b'|s/^/k/']) + b'\n'
             if cmd.count(b'\n') == 1 and R.random() < 0.2:
                 # a command line that edits and then fails: still one command, hence one undo step
                 cmd = cmd[:-1] + R.choice([b'|99999p', b'|r /nonexistent/file', b'|nosuchcommand', b"|'zp", b'|/no such text anywhere/p']) + b'\n'
